@@ -55,12 +55,12 @@ func c02Rules(tier string) []Rule {
 			f := tp + "getMatchingTopologies"
 			rs := core.InstrPresent(w, id, "PROV", f, `^store &local<\[1\]\*sched\.TopologyGroup>\[0\] = `+own+`$`, 1, "the owned group itself is appended")
 			rs = append(rs, core.InstrPresent(w, id, "PROV", f, `^store &local<\[1\]\*sched\.TopologyGroup>\[0\] = `+inv+`$`, 1, "the inverse group itself is appended")...)
-			rs = append(rs, core.InstrPresent(w, id, "PROV", f, `^return phi\(phi\(nil\|phi↺\|append\(…, …\)\)\|phi↺\|append\(phi↺, &local<\[1\]\*sched\.TopologyGroup>\[:\]\)\)$`, 1, "both lists are returned")...)
+			rs = append(rs, core.InstrPresent(w, id, "PROV", f, `^return phi\(phi↺\|append\(phi↺, &local<\[1\]\*sched\.TopologyGroup>\[:\]\)\|phi\(nil\|append\(…, …\)\|phi↺\)\)$`, 1, "both lists are returned")...)
 			a := tp + "AddRequirements"
 			rs = append(rs, core.InstrPresent(w, id, "PROV", a, `^call \(\*sched\.Topology\)\.getMatchingTopologies\(\$0, \$1, \$2, \$4, \$5\)$`, 1, "matching is evaluated for the node's requirements and taints")...)
 			rs = append(rs, core.InstrPresent(w, id, "PROV", a, `^call \(scheduling\.Requirements\)\.Get\(\$3, .*\.Key\)$`, 1, "pod domains from the pod's requirements")...)
 			rs = append(rs, core.InstrPresent(w, id, "PROV", a, `^call \(scheduling\.Requirements\)\.Get\(\$4, .*\.Key\)$`, 1, "node domains from the node's requirements")...)
-			rs = append(rs, core.InstrPresent(w, id, "PROV", a, `^call \(\*sched\.TopologyGroup\)\.Get\(.*, \$1, phi\(scheduling\.NewRequirement\(.*"Exists", nil\)\|\(scheduling\.Requirements\)\.Get\(\$3, .*\)\), phi\(scheduling\.NewRequirement\(.*"Exists", nil\)\|\(scheduling\.Requirements\)\.Get\(\$4, .*\)\)\)$`, 1, "the group is asked with (pod, podDomains, nodeDomains)")...)
+			rs = append(rs, core.InstrPresent(w, id, "PROV", a, `^call \(\*sched\.TopologyGroup\)\.Get\(.*, \$1, phi\(\(scheduling\.Requirements\)\.Get\(\$3, .*\)\|scheduling\.NewRequirement\(.*"Exists", nil\)\), phi\(\(scheduling\.Requirements\)\.Get\(\$4, .*\)\|scheduling\.NewRequirement\(.*"Exists", nil\)\)\)$`, 1, "the group is asked with (pod, podDomains, nodeDomains)")...)
 			return rs
 		}},
 		ITER{ID: "C02.ITER3", Fn: tp + "AddRequirements", Loop: `+^\(phi\(-1\|\(phi↺ \+ 1\)\) \+ 1\) < len\(\(\*sched\.Topology\)\.getMatchingTopologies\(.*\)\)$`, Gates: gates(
@@ -116,6 +116,21 @@ func c02Rules(tier string) []Rule {
 		TABLE{ID: "C02.TT1", Fn: tg + "selects", Rows: [][]string{
 			{`+(apim/util/sets.Set[string]).Has($0.namespaces, $1.ObjectMeta.Namespace)`, `=> iface:(apim/labels.Selector).Matches($0.selector, <apim/labels.Set>$1.ObjectMeta.Labels)`},
 			{`-(apim/util/sets.Set[string]).Has($0.namespaces, $1.ObjectMeta.Namespace)`, `=> false`},
+		}},
+
+		// what a group counts: one requirement set per OR-ed node-affinity term, each built in a set of its own
+		core.Custom{ID: "C02.PROV5", Kind: "PROV", Run: func(w *core.World, id string) []core.Result {
+			const f = "sched.MakeTopologyNodeFilter"
+			rs := core.ArgProvenanceN(w, id, f, `^call \(scheduling\.Requirements\)\.Add\(`, 0, `^scheduling\.NewRequirements\(nil\)$`, "requirements of a term are added to a fresh set, never into the shared node-selector set (OR-ed terms must not intersect each other)", 2)
+			rs = append(rs, core.InstrPresent(w, id, "PROV", f, `^store &local<\[1\]scheduling\.Requirements>\[0\] = scheduling\.NewRequirements\(nil\)$`, 1, "the fresh set is what the filter keeps for the term")...)
+			return rs
+		}},
+		// group identity: repeated selector expressions must not change the hash (Update appends matchLabelKeys again)
+		core.Custom{ID: "C02.PROV6", Kind: "PROV", Run: func(w *core.World, id string) []core.Result {
+			const f = "sched.hashSelector"
+			rs := core.InstrPresent(w, id, "PROV", f, `^call \(apim/util/sets\.Set\[uint64\]\)\.Insert\(apim/util/sets\.New\[uint64\]\(nil\), &local<\[1\]uint64>\[:\]\)$`, 1, "expression hashes are collected in a set (duplicates collapse)")
+			rs = append(rs, core.InstrPresent(w, id, "PROV", f, `^store &local<\[2\]any>\[0\] = apim/util/sets\.New\[uint64\]\(nil\)$`, 1, "…and that set is what is hashed")...)
+			return rs
 		}},
 
 		// ---- (5) anti-affinity / affinity
